@@ -22,9 +22,9 @@ class ConnPoolSpec(Spec):
         self.property_id = pid
         if pid == 'C15':
             self.strata = {
-                'quick': [('core', 5), ('nofault', 2), ('disc_fail', 1), ('cancel', 1), ('prune_all', 1), ('prune_busy', 1),
+                'quick': [('core', 5), ('nofault', 2), ('disc_fail', 1), ('cancel', 1), ('cancel_woken', 1), ('prune_all', 1), ('prune_busy', 1),
                           ('tight', 2), ('tight_nofault', 1)],
-                'thorough': [('core', 40), ('nofault', 16), ('disc_fail', 8), ('cancel', 8), ('prune_all', 8), ('prune_busy', 8),
+                'thorough': [('core', 40), ('nofault', 16), ('disc_fail', 8), ('cancel', 8), ('cancel_woken', 8), ('prune_all', 8), ('prune_busy', 8),
                              ('tight', 16), ('tight_nofault', 8), ('big', 1)],
             }
             self.runs = {'quick': 200000, 'thorough': 4000000}
@@ -35,9 +35,9 @@ class ConnPoolSpec(Spec):
                          'disconnect/fail/prune/stall with client and database index) among non-trivial runs')
         else:
             self.strata = {
-                'quick': [('core', 6), ('nofault', 3), ('disc_fail', 1), ('cancel', 1), ('prune_busy', 1),
+                'quick': [('core', 6), ('nofault', 3), ('disc_fail', 1), ('cancel', 1), ('cancel_woken', 1), ('prune_busy', 1),
                           ('tight', 8), ('tight_nofault', 4)],
-                'thorough': [('core', 48), ('nofault', 24), ('disc_fail', 8), ('cancel', 8), ('prune_busy', 8),
+                'thorough': [('core', 48), ('nofault', 24), ('disc_fail', 8), ('cancel', 8), ('cancel_woken', 8), ('prune_busy', 8),
                              ('tight', 64), ('tight_nofault', 32), ('big', 1)],
             }
             self.runs = {'quick': 600000, 'thorough': 6000000}
@@ -228,7 +228,7 @@ REVERT_B = {'name': 'revert_fix_prune_leak', 'expect': 'L2', 'reverts': 'C16-pru
             )
 """)]}
 REVERT_C = dict(C15_MUTANTS[-1], expect='L2', reverts='C16-transfer-disconnect-failure')
-REVERT_D = {'name': 'revert_fix_cancel_lost_wakeup', 'expect': 'L2', 'strata': ['cancel'],
+REVERT_D = {'name': 'revert_fix_cancel_lost_wakeup', 'expect': 'L2', 'strata': ['cancel', 'cancel_woken'],
             'reverts': 'C16-cancel-lost-wakeup', 'budget': 100000,
             'patches': [(F, """                    await waiter
                 except BaseException:""", """                    await waiter
